@@ -197,7 +197,8 @@ func muxScenarios(c *lib.Ctx) []*sched.Scenario {
 	} else {
 		scs[len(scs)-1].bound = 1
 		add("2x1-huge", 2, []int{70000}, []int{7})
-		add("3x2-small", 1, []int{1, 2}, []int{3, 4}, []int{5, 6})
+		add("3x2-small", 3, []int{1, 2}, []int{3, 4}, []int{5, 6})
+		scs[len(scs)-1].delay = true // millions of schedules without any preemption: delay bounding
 	}
 	var out []*sched.Scenario
 	for _, s := range scs {
